@@ -31,11 +31,16 @@ class FailDev(FixedIO):
         self.bits = 0
         self.failed = None
         self.raised = None
+        self.signal_after = None
+        self.signal_at_call = 0
 
     def attach_memory(self, m):
         self.memview = m
 
     def _maybe_fail(self, in_read):
+        if self.signal_after is not None and self.calls == self.signal_at_call:
+            # an asynchronous interrupt: SIGALRM (its handler raises KeyboardInterrupt) shortly after this call returned
+            signal.setitimer(signal.ITIMER_REAL, self.signal_after)
         if self.calls == self.fail_at and self.failed is None:
             self.failed = 'read' if in_read else 'write'
             if self.kind == 'libio':
@@ -84,6 +89,9 @@ def run_case(case, td):
     dev = FailDev(bytes.fromhex(case.get('input', '')), case['fail_at'], case['kind'])
     res = {}
     signal.setitimer(signal.ITIMER_REAL, case.get('watchdog', 4.0))
+    if case.get('signal_after') is not None:
+        dev.signal_after = case['signal_after']
+        dev.signal_at_call = case.get('signal_at_call', 0)
     try:
         st = fjm_run.run(path, io_device=dev, **kwargs)
         res['cause'] = int(st.termination_cause)
